@@ -490,6 +490,12 @@ def scale_of(img):
 
 
 def case_of(job, extra=None):
+    if job.get('_history'):          # a step of a history is only reproducible with the steps before it
+        return dict(job['_history'], tag=job['tag'])
+    return raw_case_of(job, extra)
+
+
+def raw_case_of(job, extra=None):
     img = job['_img']
     c = dict(shape=list(img.shape), grid=job['grid'], box=job['box'], nslice=job['nslice'], cores=job['cores'],
              mask=job['mask'], variant=job['variant'], dtype=job['dtype'], via=job['via'],
@@ -1094,7 +1100,8 @@ def run_history(ctx, api, steps, with_model=True):
         if not r1 or not r2 or 'hang' in (r1.get('status'), r2.get('status')):
             continue
         hcase = dict(op='history', api=api, failing_step=k,
-                     steps=[case_of(j) for j in hist[:k + 1]])
+                     steps=[raw_case_of(j) for j in hist[:k + 1]])
+        h['_history'] = hcase
         good = spec_single(ctx, h, r1)
         spec_single(ctx, f, r2)
         if r1.get('status') == 'ok':
